@@ -165,7 +165,7 @@ func compare(g *group, rng *rand.Rand) (string, string) {
 					for _, e := range es[:n] {
 						max += uint64(e.Size())
 					}
-					max -= uint64(rng.Intn(2))
+					max = max - 1 + uint64(rng.Intn(3)) // one below, exactly, one above the boundary
 				}
 			}
 			if s, d := check(a, b, max); s != "" {
@@ -244,7 +244,18 @@ func runSeq(rec *mon.Recorder, e *env, c int) {
 		rec.Violation(fmt.Sprintf("%s:after-%s", sym, ctx), fmt.Sprintf("g%d: %s", gi, detail),
 			map[string]interface{}{"case": c, "seed": rec.Seed(), "calls": calls})
 	}
+	bigLeft := 0
+	if c%80 == 47 {
+		bigLeft = 5 // a few entries of more than a megabyte: stored outside the LSM tree by the production options
+		rec.Count("cases_with_megabyte_entries", 1)
+	}
 	data := func() []byte {
+		if bigLeft > 0 {
+			bigLeft--
+			b := make([]byte, 1<<20+rng.Intn(4000))
+			rng.Read(b[:64])
+			return b
+		}
 		if rng.Intn(4) == 0 {
 			return nil
 		}
